@@ -140,11 +140,28 @@ func vOracle(st []vStmt) vVisible {
 func vSee(vt *VirtualTable) vVisible {
 	rows, err := vScan(vt)
 	symAssert(err == nil, "scan-ok")
-	symAssert(len(rows) <= 1, "one-key-one-row")
-	if len(rows) == 0 {
-		return vVisible{}
+	var res vVisible
+	seen := 0
+	for _, r := range rows {
+		if r.k == int64(1) {
+			seen++
+			res = vVisible{live: true, b: r.b, c: r.c}
+		}
 	}
-	return vVisible{live: true, b: rows[0].b, c: rows[0].c}
+	symAssert(seen <= 1, "one-key-one-row")
+	return res
+}
+
+// vBystander: is the row with key 2 (written once, by one writer) intact?
+func vBystander(vt *VirtualTable) bool {
+	rows, err := vScan(vt)
+	symAssert(err == nil, "scan-ok")
+	for _, r := range rows {
+		if r.k == int64(2) {
+			return r.b == int64(77) && r.c == int64(78)
+		}
+	}
+	return false
 }
 
 func vSameVisible(a, b vVisible) bool {
@@ -194,6 +211,11 @@ func VerifH_C02_history() {
 		r.eff = false
 		st = append(st, r)
 	}
+	// a bystander row that only the last writer ever touches must survive every
+	// merge, in whatever order and grouping (the tree-level side of the merge)
+	if symParam("extra", 1) == 1 {
+		symAssert(vIns(w[nw-1], 7, int64(2), int64(77), int64(78)) == nil, "bystander-insert-ok")
+	}
 	syncAt := symChoice("sync", n) // 0 = no intermediate refresh, k = after statement k
 	syncMode := 0
 	if syncAt > 0 && symParam("merger", 0) == 1 {
@@ -232,6 +254,9 @@ func VerifH_C02_history() {
 	r, err := vOpen(bkt.fork().client(9), vTableOpts{bf: 2, readOnly: true}, 900)
 	symAssert(err == nil, "merged-open-ok")
 	got := vSee(r)
+	if symParam("extra", 1) == 1 {
+		symAssert(vBystander(r), "row-written-by-one-writer-survives-every-merge")
+	}
 	want := vOracle(st)
 	symObserve("live", got.live)
 	if ties {
